@@ -164,6 +164,8 @@ struct Dev {
     r: [[f64; 3]; 3],
     trs: Vec<[f64; 3]>,
     c: f64,
+    /// a *used* device: a long STM is written to the other segment right before every STM under test
+    used: bool,
 }
 
 struct Ctx {
@@ -242,7 +244,8 @@ impl Ctx {
             .result;
             self.out.count(&format!("used-device:{r1}/{r2}"));
         }
-        Dev { w, pose: pose.clone(), pose_line, r, trs, c: c as f64 }
+        let used = self.opened % 3 == 0;
+        Dev { w, pose: pose.clone(), pose_line, r, trs, c: c as f64, used }
     }
 
     fn to_global_raw(trs: &[[f64; 3]], r: &[[f64; 3]; 3], lp: [f64; 3]) -> [f32; 3] {
@@ -321,6 +324,14 @@ impl Ctx {
     /// FociSTM of the given patterns (global points + absolute phase offsets); `focus_ref[k]` = Focus
     /// gain phases (offset removed) at pattern k's single focus, when available
     fn stm(&mut self, d: &mut Dev, pats: &[Pattern], intens: &[u8], focus_ref: &[Option<Vec<u8>>], tag: &str) {
+        if d.used {
+            // leave the shared STM write page beyond page 0 (a Focus gain sent in between resets it): 4200 foci to S1
+            let gp = Self::to_global_raw(&d.trs, &d.r, [10.0, 20.0, 180.0]);
+            let long: Vec<ControlPoints<1>> =
+                (0..4200).map(|j| ControlPoints::new([ControlPoint::new(Point3::new(gp[0], gp[1] + (j % 40) as f32, gp[2]), Phase((j % 241) as u8))], EmitIntensity(0x40))).collect();
+            let r = d.w.send_dg(autd3_driver::datagram::WithSegment { inner: FociSTM::new(long, to_div(5120)), segment: Segment::S1, transition_mode: None }, usize::MAX).result;
+            self.out.count(&format!("stm-on-used-device:{r}"));
+        }
         let n = pats[0].len();
         let st = match guarded(|| send_stm(&mut d.w, pats, intens)) {
             Ok(s) => s,
